@@ -157,7 +157,7 @@ def main():
     chk = Check("C01")
     graphs = ["diamond", "weak", "dist2"] if chk.tier == "quick" else ["chain", "diamond", "dist", "weak", "dist2"]
     conds = []
-    to = 900 if chk.tier == "quick" else 3600
+    to = 2400 if chk.tier == "quick" else 3600      # a limit against runaway paths only: the slowest quick condition takes ~200 s on an idle 16-core machine, ~600 s on a loaded one
     for g in graphs:
         for t in range(NV[g]):
             for a in (0, 1):
